@@ -653,9 +653,41 @@ def r76(db, ctx):
         f = db.fn(f'lightmotif::scores::StripedScores::{nm}')
         cs = {f.callee_short(t) for _, t in f.calls()} | {g.callee_short(t) for g in db.closures_of(f) for _, t in g.calls()}
         need = {'lightmotif::pli::' + inner, 'lightmotif::pli::Pipeline::dispatch'} | ({'lightmotif::scores::StripedScores::offset'} if nm != 'max' else set())
-        if need <= cs:
+        inl = False
+        if not need <= cs and need - cs == {'lightmotif::scores::StripedScores::offset'}:
+            # offset() inlined: the coordinates are mapped by col * data.rows() + row written out (the formula R1.4 demands of offset())
+            for g_ in [f] + list(db.closures_of(f)):
+                Rg_ = X.Rec(g_)
+                for bi_, blk_ in enumerate(g_.blocks):
+                    for st_ in blk_['stmts']:
+                        if st_.get('k') != 'assign' or st_['rv'].get('k') != 'bin' or not st_['rv'].get('op', '').startswith('Add'):
+                            continue
+                        try:
+                            e_ = Rg_.at(bi_).rvalue(st_['rv'])
+                            if e_[0] == 'bin' and e_[1].endswith('WithOverflow'):
+                                e_ = ('bin', e_[1][:-len('WithOverflow')], e_[2], e_[3])
+                            e_ = norm(e_)
+                        except Exception:
+                            continue
+                        for a_, b_ in ((e_[2], e_[3]), (e_[3], e_[2])):
+                            a_, b_ = norm(a_), norm(b_)
+                            if not (b_[0] == 'fld' and b_[2] == 'row' and a_[0] == 'bin' and a_[1] == 'Mul'):
+                                continue
+                            for c_, r_ in ((norm(a_[2]), norm(a_[3])), (norm(a_[3]), norm(a_[2]))):
+                                if not (c_[0] == 'fld' and c_[2] == 'col' and c_[1] == b_[1]):
+                                    continue
+                                if g_ is not f and r_[0] == 'fld' and X.strip_refs(r_[1]) == ('p', 1) and str(r_[2]).isdigit():
+                                    # a captured value: what the parent put into that slot of the closure
+                                    Rf_ = X.Rec(f)
+                                    for bj_, blk2_ in enumerate(f.blocks):
+                                        for st2_ in blk2_['stmts']:
+                                            if st2_.get('k') == 'assign' and st2_['rv'].get('k') == 'agg' and st2_['rv'].get('ak') == 'closure' and st2_['rv'].get('closure') == g_.path:
+                                                r_ = X.strip_refs(norm(Rf_.at(bj_).operand(st2_['rv']['ops'][int(r_[2])])))
+                                if m(('call~', 'DenseMatrix::rows', (('fld', ('p', 1), 'data'),)), X.strip_refs(r_)) is not None:
+                                    inl = True
+        if need <= cs or inl:
             n += 1
-            ctx.ok('R7.6', f, f'StripedScores::{nm} = dispatch().{nm}(self)' + (' mapped through offset()' if nm != 'max' else ''))
+            ctx.ok('R7.6', f, f'StripedScores::{nm} = dispatch().{nm}(self)' + (' mapped through offset()' if nm != 'max' else '') + (' (inlined: col * rows + row)' if inl else ''))
         else:
             ctx.fail('R7.6', f, f'StripedScores::{nm}', f'missing callees {sorted(need - cs)}')
     f = db.fn('lightmotif::scores::Scores::threshold')
